@@ -2,7 +2,7 @@
    ocaml/driver.ml from values it computed with the EXTRACTED model; coqc re-evaluates each left-hand side
    with vm_compute inside the kernel.  Definitions only. *)
 From Grenad.gen Require Export Consts.
-From Grenad.model Require Export Base Varint Block Trailer Writer Reader Spec Iter Format Merger Sorter IoModel.
+From Grenad.model Require Export Base Varint Block Trailer Writer Reader Spec Iter Format Merger Sorter IoModel StoreCheck.
 Open Scope N_scope.
 
 Fixpoint kx_hist (ld : N -> N -> outcome block) (root levels : N) (st : cstate) (ops : list op) : outcome (list (option entry)) :=
@@ -17,4 +17,26 @@ Definition kx_wres (r : wresult) : (bytes * N * N) + option (option N) :=
   | WPanicInsert i => inr (Some (Some i))
   | WPanicFinish => inr (Some None)
   | WFail _ => inr None
+  end.
+
+Definition kx_sres (r : N * outcome (ssink * list emitted * meta)) : N * option (bytes * list N) :=
+  match r with
+  | (i, Done (s, _, _)) => (i, Some (sk_bytes s, sk_calls s))
+  | (i, _) => (i, None)
+  end.
+
+Definition kx_fres (r : N * outcome (fsink * list emitted * meta)) : N * outcome N :=
+  match r with
+  | (i, Done (s, _, _)) => (i, Done (vs_count (fk_sink s)))
+  | (i, Panic) => (i, Panic)
+  | (i, Fail e) => (i, Fail e)
+  end.
+
+Definition kx_nres (r : outcome nstate) : outcome (N * N * N * N * N * N) :=
+  omap (fun ns => (eb_L (ns_buf ns), eb_U (ns_buf ns), eb_n (ns_buf ns), ns_chunks ns, ns_creates ns, ns_peak ns)) r.
+
+Definition kx_dres (r : outcome (meta * list entry * list (N * N * block))) : option (N * list entry * bool) :=
+  match r with
+  | Done (m, des, nodes) => Some (m_root m, des, StoreCheck.store_wf nodes (m_root m) (m_levels m))
+  | _ => None
   end.
